@@ -13,6 +13,7 @@ import Verif.Proofs.HtmlWs
 import Verif.Proofs.NumJson
 import Verif.Proofs.C16HtmlOpt
 import Verif.Proofs.C16JsVersion
+import Verif.Proofs.C16Svg
 /-!
 # C16 — options only restrict minification and are honoured
 
@@ -26,44 +27,41 @@ set_option maxRecDepth 1000000
 namespace Verif.Props.C16
 open Verif.Model.Options
 
-/-- full statement of the version gate: if the output uses a feature that is newer than the (non-zero) target
-    edition, the input already used it — for every feature, target and applicability of the rewrite -/
-def version_gate_full : Prop :=
-  ∀ (target : Nat) (f : Feature) (inputHas rw : Bool),
-    target ≠ 0 → target < f.since → emits target f inputHas rw = true → inputHas = true
-
-/-- **Version gate** (partial; guard = K-C16-3): for every feature whose rewrite site consults the version
-    (`guardOf f` is a literal — all but the property shorthand), every target and applicability of the rewrite -/
-theorem version_gate_partial (target : Nat) (f : Feature) (inputHas rw : Bool) (g : (guardOf f).isSome = true)
+/-- **Version gate** (full since 2252d4e; the property shorthand was ungated before: former K-C16-3).  If the output uses
+    a feature that is newer than the (non-zero) target edition, the input already used it — for every feature, target
+    and applicability of the rewrite. -/
+theorem version_gate (target : Nat) (f : Feature) (inputHas rw : Bool)
     (ht : target ≠ 0) (hnew : target < f.since) (he : emits target f inputHas rw = true) :
     inputHas = true := by
   cases inputHas with
   | true => rfl
   | false =>
     exfalso
-    cases f <;> simp [emits, gatePasses, guardOf, minVersion, Feature.since] at he g hnew <;> omega
-
-/-- **K-C16-3**: the property shorthand `{a}` (ES2015) is written for `{a:a}` whatever the target version -/
-theorem version_gate_counterexample : ¬ version_gate_full := by
-  intro h
-  exact absurd (h 5 .propertyShorthand false true (by decide) (by decide) (by decide)) (by decide)
+    cases f <;>
+      (simp only [emits, gatePasses, guardOf, minVersion, Feature.since, Bool.false_or, Bool.and_eq_true, Bool.or_eq_true,
+        beq_iff_eq] at he hnew
+       rcases he.2 with h | h
+       · omega
+       · have := of_decide_eq_true h; omega)
 
 /-- target 0 means "latest": every rewrite is allowed (non-vacuity of the gate's other branch) -/
 example : emits 0 .nullish false true = true := by decide
 example : emits 2019 .nullish false true = false := by decide
 example : emits 2019 .nullish true false = true := by decide
-example : (guardOf .nullish).isSome = true ∧ (2019 : Nat) ≠ 0 ∧ 2019 < Feature.since .nullish := by decide
+example : emits 5 .propertyShorthand false true = false ∧ emits 2015 .propertyShorthand false true = true := by decide
+example : (2019 : Nat) ≠ 0 ∧ 2019 < Feature.since .nullish := by decide
 
-/-- the guard sites in the source are exactly the four modelled ones (with the literals of `guardOf`), and every
+/-- the guard sites in the source are exactly the modelled ones (with the literals of `guardOf`), and every
     producer of newer syntax is one of: print-through of input syntax (`?.` is only printed for nodes that carry the
     Optional flag — the three `no-gate` sites; the one function that SETS that flag, toNullishExpr, is called inside
-    the body of the minVersion(2020) gate), a rewrite inside the body of its gate, or one of the two property-shorthand
-    sites, which do not consult the version: `minifyBinding` (a destructuring pattern, itself ES2015 syntax of the
-    input) and `minifyProperty` (an object literal: **K-C16-3**, `guardOf .propertyShorthand = none` in the model) -/
+    the body of the minVersion(2020) gate), a rewrite inside the body of its gate, the object-literal shorthand of
+    `minifyProperty` whose condition consults `minVersion(2015)`, or the shorthand of `minifyBinding` (a destructuring
+    pattern, itself ES2015 syntax of the input) -/
 theorem gates_ok :
     Verif.Gen.JsVersionGates.gates =
       ["jsMinifier.minifyExpr: minVersion(2015)", "jsMinifier.minifyExpr: minVersion(2016)",
-       "jsMinifier.minifyStmt: minVersion(2019)", "jsMinifier.optimizeCondExpr: minVersion(2020)"] ∧
+       "jsMinifier.minifyProperty: minVersion(2015)", "jsMinifier.minifyStmt: minVersion(2019)",
+       "jsMinifier.optimizeCondExpr: minVersion(2020)"] ∧
     Verif.Gen.JsVersionGates.producers =
       ["jsMinifier.minifyAlias: minifyString allowTemplate=false",
        "jsMinifier.minifyAlias: minifyString allowTemplate=false",
@@ -73,7 +71,7 @@ theorem gates_ok :
        "jsMinifier.minifyExpr: write(optChainBytes) inside no-gate",
        "jsMinifier.minifyExpr: write(optChainBytes) inside no-gate",
        "jsMinifier.minifyExpr: write(optChainBytes) inside no-gate",
-       "jsMinifier.minifyProperty: property shorthand (name: skipped when Name.IsIdent) gate no-gate",
+       "jsMinifier.minifyProperty: property shorthand (name: skipped when Name.IsIdent) gate minVersion(2015)",
        "jsMinifier.minifyPropertyName: minifyString allowTemplate=false",
        "jsMinifier.minifyStmt: minifyString allowTemplate=false",
        "jsMinifier.minifyStmt: minifyString allowTemplate=false",
@@ -125,8 +123,10 @@ theorem option_sites_ok :
        "html.Minifier.Minify: KeepComments if o.KeepComments", "html.Minifier.Minify: KeepConditionalComments WRITE",
        "html.Minifier.Minify: KeepConditionalComments if o.KeepConditionalComments",
        "html.Minifier.Minify: KeepDefaultAttrVals if !o.KeepDefaultAttrVals && (attr.Hash == Type && (t.Hash == S..",
-       "html.Minifier.Minify: KeepDocumentTags if !hasAttributes && !keepBody && (!o.KeepDocumentTags && (t.Ha..",
+       "html.Minifier.Minify: KeepDefaultAttrVals if t.Hash == Input && !o.KeepDefaultAttrVals",
+       "html.Minifier.Minify: KeepDocumentTags assigned to isDocTag",
        "html.Minifier.Minify: KeepEndTags if !o.KeepEndTags",
+       "html.Minifier.Minify: KeepEndTags if o.KeepEndTags && isDocTag",
        "html.Minifier.Minify: KeepQuotes arg of html.EscapeAttrVal",
        "html.Minifier.Minify: KeepSpecialComments WRITE",
        "html.Minifier.Minify: KeepSpecialComments if o.KeepSpecialComments",
@@ -375,41 +375,56 @@ example : isSpecialComment (s "[if IE]> x <![endif]") = true ∧ isSSI (s "#incl
       (s "<!--[if IE]> <p> x </p> <![endif]-->") (s "[if IE]> <p> x </p> <![endif]") = .ok (s "<!--[if IE]><p>x<![endif]-->") := by
   decide +kernel
 
-/-- full statement of `KeepEndTags` ("preserve all end tags"): every end tag token is written -/
-def html_keep_end_tags_full : Prop :=
-  ∀ (o : Opts) (ext : Ext) (sub : Sub) (st : St) (name data : List Char) (rest : List HTok),
-    o.keepEndTags = true → st.dropEnd = false →
-    ∃ st', step o ext sub st (.endTag name data) rest = .ok (st', endTagBytes name data)
-
-/-- **`KeepEndTags`** (partial; guard = K-C16-1): every end tag token of the input other than those of the
-    elements whose tags are dropped as a pair (`html`/`head`/`body` without `KeepDocumentTags`, `colgroup`) is written
-    (`endTagBytes`: the tag with white space before `>` removed), in place — whole document, all other options.
-    `p.st.dropEnd`: the end tag of an attribute-less empty `<script></script>`/`<style></style>`, which is removed
-    as a whole element. -/
-theorem html_keep_end_tags_partial (o : Opts) (ext : Ext) (sub : Sub) (toks : List HTok) (ps : List Piece)
+/-- **`KeepEndTags`** (full since 44fae7b; former K-C16-1): every end tag token of the input is written (`endTagBytes`:
+    the tag with white space before `>` removed), in place — unless it belongs to an html/head/body/colgroup pair that
+    is dropped as a whole, i.e. `isDroppedTag` and the start tag was not written (`docOpen`, see
+    `html_keep_end_tags_pair`).  Whole document, all other options.  `p.st.dropEnd`: the end tag of an attribute-less
+    empty `<script></script>`/`<style></style>`, which is removed as a whole element. -/
+theorem html_keep_end_tags (o : Opts) (ext : Ext) (sub : Sub) (toks : List HTok) (ps : List Piece)
     (hk : o.keepEndTags = true) (h : trace o ext sub {} toks = .ok ps) :
-    ∀ p ∈ ps, ∀ name data, p.tok = .endTag name data → isDroppedTag o name = false → p.st.dropEnd = false →
-      p.out = endTagBytes name data := by
-  intro p hp name data ht hdrop hd
+    ∀ p ∈ ps, ∀ name data, p.tok = .endTag name data → p.st.dropEnd = false →
+      (isDroppedTag o name = false ∨ p.st.docOpen.contains name = true) → p.out = endTagBytes name data := by
+  intro p hp name data ht hd hopen
   obtain ⟨st', hs⟩ := trace_step o ext sub {} toks ps h p hp
   rw [ht] at hs
-  obtain ⟨st'', hs'⟩ := end_step_written o ext sub p.st name data p.rest hd hdrop (keep_end_tags_omit o name p.rest hk)
+  obtain ⟨st'', hs'⟩ := end_step_kept o ext sub p.st name data p.rest hd hk hopen
   rw [hs'] at hs
   exact (ok_snd hs).symm
 
-/-- **K-C16-1**: `<body class=a>x</body>` with `KeepEndTags`: the start tag is written (it has an attribute), the
-    end tag is not -/
-theorem html_keep_end_tags_counterexample : ¬ html_keep_end_tags_full := by
-  intro hf
-  obtain ⟨st', h⟩ := hf { keepEndTags := true } [] none {} (s "body") (s "</body>") [] rfl rfl
-  have h2 : stepOut (step { keepEndTags := true } [] none {} (.endTag (s "body") (s "</body>")) []) =
-      some (endTagBytes (s "body") (s "</body>")) := by rw [h]; rfl
-  revert h2
-  decide +kernel
+/-- **`KeepEndTags`**, the pairs: when a start tag is written (any element, html/head/body/colgroup included), the next
+    end tag token of that name is written too — from every state, for every token stream and all other options -/
+theorem html_keep_end_tags_pair (o : Opts) (ext : Ext) (sub : Sub) (st : St) (name : List Char) (attrs : List Attr)
+    (rest : List HTok) (p : Piece) (pre : List Piece) (q : Piece) (post : List Piece) (data : List Char)
+    (hk : o.keepEndTags = true)
+    (h : trace o ext sub st (.startTag name attrs :: rest) = .ok (p :: (pre ++ q :: post)))
+    (hout : p.out ≠ []) (hpre : ∀ x ∈ pre, ∀ d, x.tok ≠ .endTag name d)
+    (hq : q.tok = .endTag name data) (hd : q.st.dropEnd = false) :
+    q.out = endTagBytes name data := by
+  obtain ⟨st', out, ps', hs, ht, e⟩ := trace_cons o ext sub st _ rest _ h
+  simp only [List.cons.injEq] at e
+  have hqs : ∃ st'', step o ext sub q.st q.tok q.rest = .ok (st'', q.out) :=
+    trace_step o ext sub st' rest ps' ht q (by rw [← e.2]; simp)
+  obtain ⟨st'', hqs⟩ := hqs
+  rw [hq] at hqs
+  have hopen : isDroppedTag o name = false ∨ q.st.docOpen.contains name = true := by
+    cases hdr : isDroppedTag o name with
+    | false => exact Or.inl rfl
+    | true =>
+      right
+      have hpo : p.out = out := by rw [e.1]
+      have hm := step_start_open o ext sub st st' name attrs rest out hk hdr hs (hpo ▸ hout)
+      rw [← e.2] at ht
+      simpa using trace_docOpen_mem o ext sub name pre st' rest q post ht hm hpre
+  obtain ⟨st3, hs'⟩ := end_step_kept o ext sub q.st name data q.rest hd hk hopen
+  rw [hs'] at hqs
+  exact (ok_snd hqs).symm
 
 example : htmlMinify { keepEndTags := true } [] none
     [.startTag (s "body") [{ name := s "class", val := s "a", data := s " class=a" }], .startTag (s "p") [],
-     .text (s "x") false, .endTag (s "p") (s "</p>"), .endTag (s "body") (s "</body>")] = .ok (s "<body class=a><p>x</p>") := by
+     .text (s "x") false, .endTag (s "p") (s "</p>"), .endTag (s "body") (s "</body>")] = .ok (s "<body class=a><p>x</p></body>") ∧
+    htmlMinify { keepEndTags := true } [] none
+    [.startTag (s "body") [], .startTag (s "p") [],
+     .text (s "x") false, .endTag (s "p") (s "</p>"), .endTag (s "body") (s "</body>")] = .ok (s "<p>x</p>") := by
   decide +kernel
 
 /-- **`KeepDocumentTags`**: every `html`, `head` and `body` end tag is written, … -/
@@ -502,35 +517,22 @@ example : writeAttr { keepDefaultAttrVals := true } [] none (s "form") []
       (AttrSt.ofAttr { name := s "method", val := s "get", data := s " method=get" }) = .ok ([], none) := by
   decide +kernel
 
-/-- do the special cases that run before the write loop leave every attribute of an `input` element in place? -/
-def inputKeeps (ext : Ext) (as : List AttrSt) : Bool :=
-  match specialAttrs ext (s "input") as with
-  | .ok as' => as'.map (·.keep) == as.map (·.keep)
-  | .error _ => true
+/-- **`KeepDefaultAttrVals`, `input`** (full since c5a4469; former K-C16-2): with the option the special case that
+    removes a default `value` (`""` for the text-like types, `on` for `radio`) is switched off — every attribute of an
+    `input` element reaches the write loop; for all other elements the special cases do not depend on the option -/
+theorem html_keep_default_input (o : Opts) (ext : Ext) (hk : o.keepDefaultAttrVals = true) :
+    (∀ as : List AttrSt, specialAttrsOpt o ext (s "input") as = .ok as) ∧
+    (∀ (o' : Opts) (tag : List Char) (as : List AttrSt), hashIs tag "input" = false →
+      specialAttrsOpt o' ext tag as = specialAttrs ext tag as) :=
+  ⟨fun as => specialAttrsOpt_input o ext as hk, fun o' tag as h => specialAttrsOpt_other o' ext tag as h⟩
 
-/-- full statement: they do (they have no access to the options, so this is what `KeepDefaultAttrVals` needs) -/
-def html_keep_default_input_full : Prop := ∀ (ext : Ext) (as : List AttrSt), inputKeeps ext as = true
-
-/-- **`KeepDefaultAttrVals`, `input`** (partial; guard = K-C16-2): outside the trigger the special case leaves the
-    attributes of `input` alone -/
-theorem html_keep_default_input_partial (ext : Ext) (as : List AttrSt) (g : inputValueTrigger as = false) :
-    inputKeeps ext as = true := by
-  unfold inputKeeps
-  split
-  · next as' h => rw [specialAttrs_input_keep ext as as' h g]; simp
-  · rfl
-
-/-- **K-C16-2**: `<input type=text value="">`: the `value` attribute is removed because `""` is the default —
-    the special case runs whatever `KeepDefaultAttrVals` says -/
-theorem html_keep_default_input_counterexample : ¬ html_keep_default_input_full := by
-  intro hf
-  have := hf [] [AttrSt.ofAttr { name := s "type", val := s "text", data := s " type=text" },
-                 AttrSt.ofAttr { name := s "value", val := [], data := s " value=\"\"" }]
-  revert this
+example : htmlMinify { keepDefaultAttrVals := true } [] none
+    [.startTag (s "input") [{ name := s "type", val := s "text", data := s " type=text" },
+                             { name := s "value", val := [], data := s " value=\"\"" }]] = .ok (s "<input type=text value>") ∧
+    htmlMinify {} [] none
+    [.startTag (s "input") [{ name := s "type", val := s "text", data := s " type=text" },
+                             { name := s "value", val := [], data := s " value=\"\"" }]] = .ok (s "<input>") := by
   decide +kernel
-
-example : inputValueTrigger [AttrSt.ofAttr { name := s "type", val := s "checkbox", data := s " type=checkbox" },
-                 AttrSt.ofAttr { name := s "value", val := [], data := s " value=\"\"" }] = false := by decide +kernel
 
 /-- **`KeepWhitespace`**, text: the collapsed text (runs of white space → one byte, references replaced) is
     written, except that (a) one leading white-space byte is dropped only if the pending-space flag is set and (b)
@@ -577,6 +579,38 @@ theorem html_template_verbatim (o : Opts) (ext : Ext) (sub : Sub) :
   exact (ok_snd hs).symm
 
 end Html
+
+/-! ## SVG (`Verif.Model.SvgDoc`, the C05B model of the document loop of `svg.Minify`) -/
+section Svg
+open Verif.Model.SvgDoc Verif.SvgDoc Verif.Proofs.C16Svg
+
+/-- SVG `KeepComments`: a comment token that the loop meets is planned — and (`fillAt`) written — as it is, whatever
+    the state, `Inline` and the number printer.  (Tokens the loop never looks at — the inside of `metadata`, of
+    foreign-prefixed elements, of an empty `defs`, of the XML declaration — are skipped with their element for every
+    option; inside `foreignObject` everything, comments included, is copied verbatim for every option.) -/
+theorem svg_keep_comments (num : List Char → List Char) (inl : Bool) (st : St) (d : List Char) (r : List STok)
+    (e : Env) (br : Nat) :
+    plan num ⟨true, inl⟩ st 0 (.comment d :: r) = PTok.tok (.comment d) :: plan num ⟨true, inl⟩ st 0 r ∧
+    (fillAt e br (.tok (.comment d))).1 = .comment d :=
+  ⟨plan_comment num inl st d r, rfl⟩
+
+/-- SVG `KeepComments` does nothing else: what is written without the option is a subsequence of what is written with
+    it, and apart from comment tokens both runs plan exactly the same tokens — every token stream, state, look-ahead
+    counter -/
+theorem svg_keep_comments_only (num : List Char → List Char) (inl : Bool) (ts : List STok) (st : St) (k : Nat) :
+    List.Sublist (plan num ⟨false, inl⟩ st k ts) (plan num ⟨true, inl⟩ st k ts) ∧
+    (plan num ⟨true, inl⟩ st k ts).filter notComment = (plan num ⟨false, inl⟩ st k ts).filter notComment :=
+  ⟨plan_sublist num inl ts st k, plan_filter num inl ts st k⟩
+
+example :
+    let ts : List STok := [.startTag "svg".toList, .startTagClose, .comment "<!-- a -->".toList, .startTag "g".toList,
+      .startTagCloseVoid, .endTag "</svg>".toList "svg".toList]
+    let e : Env := ⟨fun _ _ _ => none, id, id⟩
+    svgMinify e ⟨true, false⟩ ts = "<svg><!-- a --><g/></svg>".toList ∧
+    svgMinify e ⟨false, false⟩ ts = "<svg><g/></svg>".toList := by
+  decide +kernel
+
+end Svg
 
 /-! ## the guarantees of the other properties under every option combination
 
